@@ -5,221 +5,48 @@ Reading of the statement in the model (ForML.Model.Fs / ForML.Model.Registry):
 * the reader's view of a tree is `vis fs : Path → Option Node` (what a fresh `asset.Directory` reaches through
   the listings); `ViewEq a b` = the two trees are indistinguishable for a fresh reader;
 * a process death during a registry call = `run fs (crashOps ops k cut)`: `k` atomic micro-operations of the
-  call completed, optionally `cut` bytes of the next write;
-* crash consistency of a call: every such tree is `ViewEq` to the tree before, or is the complete result.
+  call completed, optionally `cut` bytes of the next write; inside a history step (guard + several calls)
+  it is `crashIn impl fs step k cut`;
+* a history is a list of events `Ev.step s` (the step runs to its end or raises) and `Ev.crash s k cut` (the process
+  dies inside the step and a new process carries on with what is on disk); `play impl Fs.empty evs` is the tree after it.
 
-`Impl.existing` is the code as it is in /repo (tag and package written in place; project key checked only for
-listed projects), `Impl.repaired` the code with fixes/C05-*.diff applied.
+`Impl.repaired` is the code in /repo (fix commits 3387543, dc51650), `Impl.original` the code before them: the
+theorems named `…_original_…` are about the latter (counterexamples replayed by the harness, findings C05-F1..F4).
+
+Part 1: single registry calls on arbitrary trees.  Part 2: whole histories, by induction over the events, the calls of
+a step and the micro-operations of a call (lemmas in ForML/Lemmas/C05*.lean).
 -/
-import ForML.Lemmas.C05
+import ForML.Lemmas.C05Steps
 
 namespace ForML.Registry
 open ForML.Fs
 
-/-- indistinguishable for a fresh reader -/
-def ViewEq (a b : Fs) : Prop := ∀ k, vis a k = vis b k
+/-! ## Part 1 — single calls, any tree -/
 
-/-! ### helper lemmas (private) -/
+/-! ### crash consistency of a commit (`Registry.close` under `Release.put`) -/
 
-private theorem mem_mkdirP (fs : Fs) (path : Path) (op : Op) (h : op ∈ mkdirP fs path) :
-    ∃ q ∈ prefixes path, op = .mkdir q ∧ get fs q = none := by
-  simp only [mkdirP, List.mem_filterMap] at h
-  obtain ⟨q, hq, hop⟩ := h
-  by_cases hn : get fs q = none
-  · simp [hn] at hop; exact ⟨q, hq, hop.symm, hn⟩
-  · simp [hn] at hop
-
-/-- everything a commit touches lies below the new generation directory or below the stage directory -/
-private theorem closeOps_touches (impl : Impl) (fs : Fs) (p v g : Nat) (t : Tag)
-    (hp : get fs (projectP p) ≠ none) (hv : get fs (releaseP p v) ≠ none) :
-    ∀ op ∈ closeOps impl fs p v g t, ∀ key, touches op key →
-      (generationP p v g <+: key ∨ stageP p v <+: key) := by
-  intro op hop key hk
-  simp only [closeOps, List.mem_append, List.mem_map] at hop
-  rcases hop with (hop | ⟨s, _, rfl⟩) | hop
-  · obtain ⟨q, hq, rfl, hn⟩ := mem_mkdirP _ _ _ hop
-    simp only [generationP, prefixes, List.map_cons, List.map_nil, List.mem_cons, List.not_mem_nil, or_false] at hq
-    simp only [touches] at hk; subst hk
-    rcases hq with rfl | rfl | rfl
-    · exact absurd hn hp
-    · exact absurd hn hv
-    · exact Or.inl (List.prefix_refl _)
-  · simp only [touches] at hk
-    rcases hk with hk | hk
-    · right
-      exact List.IsPrefix.trans (by simp [stageP, stagedStateP]) hk
-    · left
-      exact List.IsPrefix.trans (by simp [generationP, stateP]) hk
-  · left
-    unfold tagWriteOps at hop
-    split at hop
-    · simp only [List.mem_cons, List.not_mem_nil, or_false] at hop
-      rcases hop with rfl | rfl | rfl
-      · simp only [touches] at hk; subst hk; simp [generationP, tagTmpP]
-      · simp only [touches] at hk; subst hk; simp [generationP, tagTmpP]
-      · simp only [touches] at hk
-        rcases hk with hk | hk
-        · exact List.IsPrefix.trans (by simp [generationP, tagTmpP]) hk
-        · exact List.IsPrefix.trans (by simp [generationP, tagP]) hk
-    · simp only [List.mem_cons, List.not_mem_nil, or_false] at hop
-      rcases hop with rfl | rfl
-      · simp only [touches] at hk; subst hk; simp [generationP, tagP]
-      · simp only [touches] at hk; subst hk; simp [generationP, tagP]
-
-/-- the part of a commit before the tag becomes visible never touches the tag path -/
-private theorem closePrefix_not_tag (fs : Fs) (p v g : Nat) (sids : List Nat) (extra : List Op)
-    (hx : ∀ op ∈ extra, ¬ touches op (tagP p v g)) :
-    ∀ op ∈ mkdirP fs (generationP p v g)
-        ++ sids.map (fun s => Op.rename (stagedStateP p v s) (stateP p v g s)) ++ extra,
-      ¬ touches op (tagP p v g) := by
-  intro op hop
-  simp only [List.mem_append, List.mem_map] at hop
-  rcases hop with (hop | ⟨s, _, rfl⟩) | hop
-  · obtain ⟨q, hq, rfl, _⟩ := mem_mkdirP _ _ _ hop
-    simp only [generationP, prefixes, List.map_cons, List.map_nil, List.mem_cons, List.not_mem_nil, or_false] at hq
-    rcases hq with rfl | rfl | rfl <;> simp [touches, tagP]
-  · simp [touches, tagP, stagedStateP, stateP]
-  · exact hx op hop
-
-/-- a reader never looks below the stage directory, and below a generation directory only through its tag -/
-private theorem vis_frame_gen (a b : Fs) (p v g : Nat)
-    (hf : ∀ key, ¬ (generationP p v g <+: key) → ¬ (stageP p v <+: key) → get a key = get b key) :
-    ∀ key, ¬ (generationP p v g <+: key) → vis a key = vis b key := by
-  have rl : ∀ p' v', relListed a p' v' = relListed b p' v' := by
-    intro p' v'
-    simp only [relListed, isDir]
-    rw [hf (projectP p') (by simp [generationP, projectP]) (by simp [stageP, projectP]),
-        hf (releaseP p' v') (by simp [generationP, releaseP]) (by simp [stageP, releaseP]),
-        hf (packageP p' v') (by simp [generationP, packageP]) (by simp [stageP, packageP])]
-  intro key hkey
-  unfold vis
-  split
-  · rename_i p' v'
-    rw [rl, hf (packageP p' v') (by simp [generationP, packageP]) (by simp [stageP, packageP])]
-  · rename_i p' v' i
-    have e := hf (packageP p' v' ++ [Seg.member i]) (by simp [generationP, packageP]) (by simp [stageP, packageP])
-    rw [rl, e]
-  · rename_i p' v' g'
-    have hne : ¬ (p = p' ∧ v = v' ∧ g = g') := by
-      intro ⟨h1, h2, h3⟩; subst h1 h2 h3; exact hkey (by simp [generationP])
-    have e1 := hf (generationP p' v' g') (by simpa [generationP] using hne) (by simp [stageP, generationP])
-    have e2 := hf (tagP p' v' g') (by simpa [generationP, tagP] using hne) (by simp [stageP, tagP])
-    simp [genListed, genValid, isDir, rl, e1, e2]
-  · rename_i p' v' g' s
-    have hne : ¬ (p = p' ∧ v = v' ∧ g = g') := by
-      intro ⟨h1, h2, h3⟩; subst h1 h2 h3; exact hkey (by simp [generationP])
-    have e1 := hf (generationP p' v' g') (by simpa [generationP] using hne) (by simp [stageP, generationP])
-    have e2 := hf (tagP p' v' g') (by simpa [generationP, tagP] using hne) (by simp [stageP, tagP])
-    have e3 := hf (stateP p' v' g' s) (by simpa [generationP, stateP] using hne) (by simp [stageP, stateP])
-    simp [genListed, genValid, isDir, tagOf, rl, e1, e2, e3]
-  · rfl
-
-/-- a generation directory without `tag.toml` is invisible, whatever else it holds -/
-private theorem vis_hidden_gen (a : Fs) (p v g : Nat) (ht : get a (tagP p v g) = none) :
-    ∀ key, generationP p v g <+: key → vis a key = none := by
-  intro key hkey
-  unfold vis
-  split
-  · simp [generationP] at hkey
-  · simp [generationP] at hkey
-  · rename_i p' v' g'
-    simp [generationP] at hkey
-    obtain ⟨rfl, rfl, rfl⟩ := hkey
-    simp [genListed, genValid, ht]
-  · rename_i p' v' g' s
-    simp [generationP] at hkey
-    obtain ⟨rfl, rfl, rfl⟩ := hkey
-    simp [genListed, genValid, ht]
-  · rfl
-
-private theorem crashOps_append_le (A B : List Op) (k : Nat) (cut : Option Nat) (hk : k ≤ A.length)
-    (hB : ∀ p b, B.head? ≠ some (.append p b)) : crashOps (A ++ B) k cut = crashOps A k cut := by
-  unfold crashOps
-  rw [List.take_append_of_le_length hk]
-  by_cases h1 : k < A.length
-  · rw [List.getElem?_append_left h1]
-  · have h2 : k = A.length := by omega
-    subst h2
-    have e2 : A[A.length]? = none := by simp
-    rw [e2]
-    cases cut with
-    | none => rfl
-    | some c =>
-      cases B with
-      | nil => simp
-      | cons o r =>
-        have e1 : (A ++ o :: r)[A.length]? = some o := by simp
-        rw [e1]
-        cases o with
-        | append p b => exact absurd rfl (hB p b)
-        | mkdir p => rfl
-        | createEmpty p => rfl
-        | rename p q => rfl
-        | copyFile p b => rfl
-
-/-- core of the commit theorems: a crash inside the part `A` of a commit that does not touch the tag path leaves a
-tree that a fresh reader cannot tell from the one before -/
-private theorem commit_prefix_invisible (impl : Impl) (fs c : Fs) (p v g : Nat) (t : Tag) (A : List Op)
-    (k : Nat) (cut : Option Nat)
-    (hA : ∀ op ∈ A, op ∈ closeOps impl fs p v g t) (hAt : ∀ op ∈ A, ¬ touches op (tagP p v g))
-    (hp : get fs (projectP p) ≠ none) (hv : get fs (releaseP p v) ≠ none)
-    (ht : get fs (tagP p v g) = none) (hc : run fs (crashOps A k cut) = some c) : ViewEq c fs := by
-  have htouch := crashOps_touches A k cut
-  have hframe : ∀ key, ¬ (generationP p v g <+: key) → ¬ (stageP p v <+: key) → get c key = get fs key := by
-    intro key h1 h2
-    apply run_frame _ _ _ _ hc
-    intro op hop htk
-    obtain ⟨op', hop', himp⟩ := htouch op hop
-    rcases closeOps_touches impl fs p v g t hp hv op' (hA op' hop') key (himp key htk) with h | h
-    · exact h1 h
-    · exact h2 h
-  have htc : get c (tagP p v g) = none := by
-    rw [← ht]
-    apply run_frame _ _ _ _ hc
-    intro op hop htk
-    obtain ⟨op', hop', himp⟩ := htouch op hop
-    exact hAt op' hop' (himp _ htk)
-  intro key
-  by_cases hkey : generationP p v g <+: key
-  · rw [vis_hidden_gen c p v g htc key hkey, vis_hidden_gen fs p v g ht key hkey]
-  · exact vis_frame_gen c fs p v g hframe key hkey
-
-/-! ### C05 — crash consistency of a commit (`Registry.close` under `Release.put`) -/
-
-/-- The statement for a commit, for either variant of the code: whenever the process dies, a fresh reader sees
-the previous content or the complete new generation.  Hypotheses = what `Release.put` guarantees when it calls
-`close`: the release is listed (its directories exist) and generation `g` has no tag yet. -/
-def C05_commit_crash_full (impl : Impl) : Prop :=
+/-- The statement for a commit: whenever the process dies, a fresh reader sees the previous content or the complete
+new generation.  Hypotheses = what `Release.put` guarantees when it calls `close`: the release is listed (its
+directories exist) and generation `g` has no tag yet. -/
+def CommitCrashConsistent (impl : Impl) : Prop :=
   ∀ (fs c : Fs) (p v g : Nat) (t : Tag) (k : Nat) (cut : Option Nat),
     get fs (projectP p) ≠ none → get fs (releaseP p v) ≠ none → get fs (tagP p v g) = none →
     run fs (crashOps (closeOps impl fs p v g t) k cut) = some c →
     ViewEq c fs ∨ run fs (closeOps impl fs p v g t) = some c
 
-/-- **C05_commit_crash_repaired**: with the tag written to a temporary sibling and renamed, a commit is crash
-consistent at *every* crash point (between any two micro-operations and inside the tag write), for every tree,
+/-- **C05_commit_crash**: with the tag written to a temporary sibling and renamed (the code that exists), a commit is
+crash consistent at *every* crash point (between any two micro-operations and inside the tag write), for every tree,
 release, generation number, tag and number of states. -/
-theorem C05_commit_crash_repaired (kf : Bool) : C05_commit_crash_full ⟨true, kf⟩ := by
+theorem C05_commit_crash (kf : Bool) : CommitCrashConsistent ⟨true, kf⟩ := by
   intro fs c p v g t k cut hp hv ht hc
-  let A := mkdirP fs (generationP p v g)
-      ++ t.sids.map (fun s => Op.rename (stagedStateP p v s) (stateP p v g s))
-      ++ [Op.createEmpty (tagTmpP p v g), Op.append (tagTmpP p v g) (encodeTag t)]
-  have hsplit : closeOps ⟨true, kf⟩ fs p v g t = A ++ [Op.rename (tagTmpP p v g) (tagP p v g)] := by
-    simp [closeOps, tagWriteOps, A]
-  rw [hsplit, crashOps_snoc A _ (by intro p b h; cases h)] at hc
-  split at hc
-  · left
-    refine commit_prefix_invisible ⟨true, kf⟩ fs c p v g t A k cut ?_ ?_ hp hv ht hc
-    · intro op hop; rw [hsplit]; exact List.mem_append_left _ hop
-    · apply closePrefix_not_tag
-      intro op hop
-      simp only [List.mem_cons, List.not_mem_nil, or_false] at hop
-      rcases hop with rfl | rfl <;> simp [touches, tagP, tagTmpP]
-  · right; rw [hsplit]; exact hc
+  rcases commit_crash_raw kf fs c p v g t k cut hp hv ht hc with hq | hfull
+  · exact Or.inl (hq.viewEq ht)
+  · exact Or.inr hfull
 
-/-- **C05_commit_crash_partial**: the code that exists (tag written in place) is crash consistent at every crash
-point *except* the two after `open(tag, 'wb')`: `k = n + 1` where `n` = number of micro-operations before the
+/-- **C05_commit_crash_original_partial**: the code before the fix (tag written in place) is crash consistent at every
+crash point *except* the two after `open(tag, 'wb')`: `k = n + 1` where `n` = number of micro-operations before the
 tag is created (tag empty, or partially written with `cut`). -/
-theorem C05_commit_crash_partial (kf : Bool) (fs c : Fs) (p v g : Nat) (t : Tag) (k : Nat) (cut : Option Nat)
+theorem C05_commit_crash_original_partial (kf : Bool) (fs c : Fs) (p v g : Nat) (t : Tag) (k : Nat) (cut : Option Nat)
     (hp : get fs (projectP p) ≠ none) (hv : get fs (releaseP p v) ≠ none) (ht : get fs (tagP p v g) = none)
     (hk : k ≠ (mkdirP fs (generationP p v g)).length + t.sids.length + 1)
     (hc : run fs (crashOps (closeOps ⟨false, kf⟩ fs p v g t) k cut) = some c) :
@@ -246,31 +73,31 @@ theorem C05_commit_crash_partial (kf : Bool) (fs c : Fs) (p v g : Nat) (t : Tag)
 
 /-- the tree after `publish 0/1 (file package)` and two staged states 0, 1 -/
 def witnessTree : Fs :=
-  (runSome Fs.empty (pushOps Impl.existing Fs.empty 0 1 (.file [7, 7])
+  (runSome Fs.empty (pushOps Impl.original Fs.empty 0 1 (.file [7, 7])
     ++ [.mkdir (stageP 0 1), .copyFile (stagedStateP 0 1 0) [1], .copyFile (stagedStateP 0 1 1) [2]])).1
 
-/-- **C05_commit_crash_counterexample**: in the code that exists a process death right after `open(tag, 'wb')`
-(3 of 5 micro-operations done) leaves generation 1 *listed* with an unreadable (empty) tag: the view is neither
-the old one (no generation) nor the new one. -/
-theorem C05_commit_crash_counterexample : ¬ C05_commit_crash_full Impl.existing := by
+/-- **C05_commit_crash_original_counterexample**: in the code before the fix a process death right after
+`open(tag, 'wb')` (4 of 5 micro-operations done) leaves generation 1 *listed* with an unreadable (empty) tag: the view
+is neither the old one (no generation) nor the new one.  (Finding C05-F1.) -/
+theorem C05_commit_crash_original_counterexample : ¬ CommitCrashConsistent Impl.original := by
   intro h
-  have := h witnessTree (runSome witnessTree (crashOps (closeOps Impl.existing witnessTree 0 1 1 ⟨5, [0, 1]⟩) 4 none)).1
+  have := h witnessTree (runSome witnessTree (crashOps (closeOps Impl.original witnessTree 0 1 1 ⟨5, [0, 1]⟩) 4 none)).1
     0 1 1 ⟨5, [0, 1]⟩ 4 none (by decide) (by decide) (by decide) (by decide)
   rcases this with h1 | h1
   · have := h1 (tagP 0 1 1); revert this; decide
   · revert h1; decide
 
 /-- the crashed tree of the counterexample shows generation 1 as listed and its tag does not decode -/
-theorem C05_commit_crash_counterexample_corrupt :
-    let c := (runSome witnessTree (crashOps (closeOps Impl.existing witnessTree 0 1 1 ⟨5, [0, 1]⟩) 4 none)).1
+theorem C05_commit_crash_original_counterexample_corrupt :
+    let c := (runSome witnessTree (crashOps (closeOps Impl.original witnessTree 0 1 1 ⟨5, [0, 1]⟩) 4 none)).1
     genListed c 0 1 1 = true ∧ tagOf c 0 1 1 = none := by decide
 
 /-- ... and so does a tag cut short inside the write -/
-theorem C05_commit_crash_counterexample_partial_write :
-    let c := (runSome witnessTree (crashOps (closeOps Impl.existing witnessTree 0 1 1 ⟨5, [0, 1]⟩) 4 (some 2))).1
+theorem C05_commit_crash_original_counterexample_partial_write :
+    let c := (runSome witnessTree (crashOps (closeOps Impl.original witnessTree 0 1 1 ⟨5, [0, 1]⟩) 4 (some 2))).1
     genListed c 0 1 1 = true ∧ tagOf c 0 1 1 = none := by decide
 
-/-! ### C05 — append-only: a completed commit adds one generation and changes nothing that was visible -/
+/-! ### a completed commit adds one generation and changes nothing else -/
 
 /-- **C05_commit_append_only**: after a completed commit (either variant) every node a fresh reader could see
 before is still seen, byte-identical (older generations, tags, states, packages of every project). -/
@@ -281,71 +108,60 @@ theorem C05_commit_append_only (impl : Impl) (fs fs' : Fs) (p v g : Nat) (t : Ta
   intro key n hvis
   have hkey : ¬ generationP p v g <+: key := by
     intro h; rw [vis_hidden_gen fs p v g ht key h] at hvis; cases hvis
-  have hframe : ∀ key, ¬ (generationP p v g <+: key) → ¬ (stageP p v <+: key) → get fs' key = get fs key := by
-    intro key h1 h2
-    apply run_frame _ _ _ _ hr
-    intro op hop htk
-    rcases closeOps_touches impl fs p v g t hp hv op hop key htk with h | h
-    · exact h1 h
-    · exact h2 h
-  rw [vis_frame_gen fs' fs p v g hframe key hkey]; exact hvis
+  rw [vis_frame_gen fs' fs p v g (close_frame impl fs fs' p v g t hp hv hr) key hkey]; exact hvis
+
+/-- **C05_commit_content**: a completed commit leaves generation `g` with exactly the given tag, the tag's state ids
+are pairwise distinct and each named state file holds what was staged under that id. -/
+theorem C05_commit_content (kf : Bool) (fs fs' : Fs) (p v g : Nat) (t : Tag)
+    (hr : run fs (closeOps ⟨true, kf⟩ fs p v g t) = some fs') :
+    tagOf fs' p v g = some t ∧ t.sids.Nodup ∧
+    ∀ s ∈ t.sids, get fs' (stateP p v g s) = get fs (stagedStateP p v s) := by
+  obtain ⟨_, c2, c3, c4⟩ := close_content kf fs fs' p v g t hr
+  exact ⟨by simp [tagOf, c2, decode_encode], c3, c4⟩
 
 /-! ### generation numbering and the release guard (directory levels) -/
 
-private theorem le_maxOf (l : List Nat) (x : Nat) (hx : x ∈ l) : ∃ m, maxOf l = some m ∧ x ≤ m := by
-  induction l with
-  | nil => cases hx
-  | cons y r ih =>
-    simp only [maxOf]
-    rcases List.mem_cons.mp hx with rfl | hx
-    · cases maxOf r with
-      | none => exact ⟨x, rfl, Nat.le_refl _⟩
-      | some m => exact ⟨max x m, rfl, Nat.le_max_left _ _⟩
-    · obtain ⟨m, hm, hle⟩ := ih hx
-      rw [hm]
-      exact ⟨max y m, rfl, Nat.le_trans hle (Nat.le_max_right _ _)⟩
-
 /-- **C05_next_generation**: `Release.put` numbers the new generation 1 for an empty listing and otherwise one
-above *every* listed generation (so above the highest one). -/
+above *every* listed generation (so above the highest one), the number below being listed. -/
 theorem C05_next_generation (fs : Fs) (p v : Nat) :
     (generationsOf fs p v = [] → nextGen fs p v = 1) ∧
     (∀ g ∈ generationsOf fs p v, g < nextGen fs p v) ∧
-    (generationsOf fs p v ≠ [] → nextGen fs p v - 1 ∈ generationsOf fs p v) := by
-  refine ⟨?_, ?_, ?_⟩
-  · intro h; simp [nextGen, h, maxOf]
-  · intro g hg
-    obtain ⟨m, hm, hle⟩ := le_maxOf _ g hg
-    simp [nextGen, hm]; omega
-  · intro hne
-    have hmem : ∀ l : List Nat, l ≠ [] → ∃ m, maxOf l = some m ∧ m ∈ l := by
-      intro l
-      induction l with
-      | nil => intro h; exact absurd rfl h
-      | cons y r ih =>
-        intro _
-        simp only [maxOf]
-        cases hr : maxOf r with
-        | none => exact ⟨y, rfl, by simp⟩
-        | some m =>
-          have : r ≠ [] := by intro h; simp [h, maxOf] at hr
-          obtain ⟨m', hm', hin⟩ := ih this
-          rw [hr] at hm'; cases hm'
-          refine ⟨max y m, rfl, ?_⟩
-          rcases Nat.le_total y m with h | h
-          · rw [Nat.max_eq_right h]; exact List.mem_cons_of_mem _ hin
-          · rw [Nat.max_eq_left h]; simp
-    obtain ⟨m, hm, hin⟩ := hmem _ hne
-    simp [nextGen, hm]; exact hin
+    (generationsOf fs p v ≠ [] → nextGen fs p v - 1 ∈ generationsOf fs p v) := nextGen_spec fs p v
+
+/-- **C05_latest_is_highest**: an implicit generation / release key (`get(None)`) resolves to a listed key that is
+at least every listed one; it is undefined (`Listing.Empty`) exactly for an empty listing. -/
+theorem C05_latest_is_highest (fs : Fs) (p v : Nat) :
+    (∀ m, latestGen fs p v = some m → m ∈ generationsOf fs p v ∧ ∀ g ∈ generationsOf fs p v, g ≤ m)
+    ∧ (latestGen fs p v = none ↔ generationsOf fs p v = [])
+    ∧ (∀ m, latestRel fs p = some m → m ∈ releasesOf fs p ∧ ∀ w ∈ releasesOf fs p, w ≤ m)
+    ∧ (latestRel fs p = none ↔ releasesOf fs p = []) := by
+  have key : ∀ l : List Nat, (∀ m, maxOf l = some m → m ∈ l ∧ ∀ g ∈ l, g ≤ m) ∧ (maxOf l = none ↔ l = []) := by
+    intro l
+    constructor
+    · intro m hm
+      have hne : l ≠ [] := by intro h; simp [h, maxOf] at hm
+      obtain ⟨m', hm', hin⟩ := mem_maxOf l hne
+      rw [hm] at hm'; cases hm'
+      refine ⟨hin, fun g hg => ?_⟩
+      obtain ⟨m'', hm'', hle⟩ := le_maxOf l g hg
+      rw [hm] at hm''; cases hm''; exact hle
+    · constructor
+      · intro h
+        cases l with
+        | nil => rfl
+        | cons x r => obtain ⟨m, hm, _⟩ := mem_maxOf (x :: r) (by simp); rw [h] at hm; cases hm
+      · intro h; simp [h, maxOf]
+  exact ⟨(key _).1, (key _).2, (key _).1, (key _).2⟩
 
 /-- The statement for releases: `Project.put` accepts a package `(name, v)` only if `v` is greater than every
 listed release of project `name`. -/
-def C05_release_monotonic_full (impl : Impl) : Prop :=
+def ReleaseMonotonic (impl : Impl) : Prop :=
   ∀ (fs : Fs) (dirProj name v : Nat), publishGuard impl fs dirProj name v = none →
     ∀ w ∈ releasesOf fs name, w < v
 
-/-- **C05_release_monotonic_repaired**: with the project key compared first, an accepted release is greater than
-every listed release of the project it is pushed to. -/
-theorem C05_release_monotonic_repaired (st : Bool) : C05_release_monotonic_full ⟨st, true⟩ := by
+/-- **C05_release_monotonic**: with the project key compared first (the code that exists), an accepted release is
+greater than every listed release of the project it is pushed to. -/
+theorem C05_release_monotonic (st : Bool) : ReleaseMonotonic ⟨st, true⟩ := by
   intro fs dp name v hg w hw
   simp only [publishGuard, Bool.true_and] at hg
   by_cases hn : name = dp
@@ -364,9 +180,9 @@ theorem C05_release_monotonic_repaired (st : Bool) : C05_release_monotonic_full 
   · have : (name != dp) = true := by simp [hn]
     simp [this] at hg
 
-/-- **C05_release_monotonic_partial**: the code that exists guarantees it when the package is put through its
-own project's key. -/
-theorem C05_release_monotonic_partial (st : Bool) (fs : Fs) (name v : Nat)
+/-- **C05_release_monotonic_original_partial**: the code before the fix guarantees it when the package is put through
+its own project's key. -/
+theorem C05_release_monotonic_original_partial (st : Bool) (fs : Fs) (name v : Nat)
     (hg : publishGuard ⟨st, false⟩ fs name name v = none) : ∀ w ∈ releasesOf fs name, w < v := by
   intro w hw
   simp only [publishGuard, Bool.false_and, Bool.false_eq_true, if_false] at hg
@@ -381,219 +197,199 @@ theorem C05_release_monotonic_partial (st : Bool) (fs : Fs) (name v : Nat)
     · omega
     · cases hg
 
-/-- **C05_release_monotonic_counterexample**: release 3 of project 0 exists; putting the package `(0, 1)` through the
-unlisted project key 2 is accepted by the code that exists. -/
-theorem C05_release_monotonic_counterexample : ¬ C05_release_monotonic_full Impl.existing := by
+/-- **C05_release_monotonic_original_counterexample**: release 3 of project 0 exists; putting the package `(0, 1)`
+through the unlisted project key 2 was accepted by the code before the fix.  (Finding C05-F4.) -/
+theorem C05_release_monotonic_original_counterexample : ¬ ReleaseMonotonic Impl.original := by
   intro h
-  have := h (runSome Fs.empty (pushOps Impl.existing Fs.empty 0 3 (.file [7]))).1 2 0 1 (by decide) 3 (by decide)
+  have := h (runSome Fs.empty (pushOps Impl.original Fs.empty 0 3 (.file [7]))).1 2 0 1 (by decide) 3 (by decide)
   revert this; decide
 
-/-! ### C05 — crash consistency of a publish (`Registry.push` under `Project.put`) -/
+/-! ### crash consistency of a publish (`Registry.push` under `Project.put`) -/
 
 /-- The statement for a publish: whenever the process dies, a fresh reader sees the previous content or the
 complete new release. -/
-def C05_publish_crash_full (impl : Impl) : Prop :=
+def PublishCrashConsistent (impl : Impl) : Prop :=
   ∀ (fs c : Fs) (p v : Nat) (pkg : Pkg) (k : Nat) (cut : Option Nat),
     WF fs → relListed fs p v = false →
     run fs (crashOps (atomsAll (pushOps impl fs p v pkg)) k cut) = some c →
     ViewEq c fs ∨ run fs (atomsAll (pushOps impl fs p v pkg)) = some c
 
-private theorem atomsAll_append (X Y : List Op) : atomsAll (X ++ Y) = atomsAll X ++ atomsAll Y := by
-  simp [atomsAll]
-
-private theorem atoms_touches (op a : Op) (ha : a ∈ op.atoms) : ∀ key, touches a key → touches op key := by
-  cases op <;> simp only [Op.atoms, List.mem_cons, List.not_mem_nil, or_false] at ha
-  all_goals first
-    | (subst ha; exact fun _ h => h)
-    | (rcases ha with rfl | rfl <;> exact fun _ h => h)
-
-private theorem atomsAll_touches (ops : List Op) (a : Op) (ha : a ∈ atomsAll ops) :
-    ∃ op ∈ ops, ∀ key, touches a key → touches op key := by
-  simp only [atomsAll, List.mem_flatMap] at ha
-  obtain ⟨op, hop, hin⟩ := ha
-  exact ⟨op, hop, atoms_touches op a hin⟩
-
-/-- what the repaired `push` touches before its final rename -/
-private theorem pushPrefix_touches (fs : Fs) (p v : Nat) (tmpOps : List Op)
-    (htmp : ∀ op ∈ tmpOps, ∀ key, touches op key → packageTmpP p v <+: key) :
-    ∀ op ∈ mkdirP fs (releaseP p v) ++ tmpOps, ∀ key, touches op key →
-      (key = projectP p ∧ get fs key = none) ∨ (key = releaseP p v ∧ get fs key = none)
-        ∨ packageTmpP p v <+: key := by
-  intro op hop key hk
-  rcases List.mem_append.mp hop with hop | hop
-  · obtain ⟨q, hq, rfl, hn⟩ := mem_mkdirP _ _ _ hop
-    simp only [releaseP, prefixes, List.map_cons, List.map_nil, List.mem_cons, List.not_mem_nil, or_false] at hq
-    simp only [touches] at hk; subst hk
-    rcases hq with rfl | rfl
-    · exact Or.inl ⟨rfl, hn⟩
-    · exact Or.inr (Or.inl ⟨rfl, hn⟩)
-  · exact Or.inr (Or.inr (htmp op hop key hk))
-
-/-- creating the (missing) project / release directories and anything below the temporary package name is
-invisible as long as the release has no `package.4ml` -/
-private theorem vis_frame_rel (a b : Fs) (p v : Nat) (w : WF b)
-    (hf : ∀ key, key ≠ projectP p → key ≠ releaseP p v → ¬ (packageTmpP p v <+: key) → get a key = get b key)
-    (h1 : get b (projectP p) ≠ none → get a (projectP p) = get b (projectP p))
-    (hb : get b (packageP p v) = none) : ViewEq a b := by
-  have ha : get a (packageP p v) = none := by
-    rw [hf (packageP p v) (by simp [packageP, projectP]) (by simp [packageP, releaseP])
-      (by simp [packageP, packageTmpP])]; exact hb
-  have rl : ∀ p' v', relListed a p' v' = relListed b p' v' := by
-    intro p' v'
-    by_cases hpp : p' = p
-    · subst hpp
-      by_cases hvv : v' = v
-      · subst hvv; simp [relListed, ha, hb]
-      · have e2 := hf (releaseP p' v') (by simp [releaseP, projectP]) (by simp [releaseP, hvv])
-          (by simp [releaseP, packageTmpP])
-        have e3 := hf (packageP p' v') (by simp [packageP, projectP]) (by simp [packageP, releaseP])
-          (by simp [packageP, packageTmpP])
-        by_cases hn : get b (projectP p') = none
-        · have hbn : get b (releaseP p' v') = none := by
-            cases hr : get b (releaseP p' v') with
-            | none => rfl
-            | some n =>
-              have := w.parent_dir (releaseP p' v') n hr (by simp [releaseP])
-              simp [parent, releaseP, projectP] at this hn
-              rw [hn] at this; cases this
-          simp [relListed, isDir, e2, hbn]
-        · simp [relListed, isDir, e2, e3, h1 hn]
-    · have e1 := hf (projectP p') (by simp [projectP, hpp]) (by simp [releaseP, projectP])
-        (by simp [projectP, packageTmpP])
-      have e2 := hf (releaseP p' v') (by simp [releaseP, projectP]) (by simp [releaseP, hpp])
-        (by simp [releaseP, packageTmpP])
-      have e3 := hf (packageP p' v') (by simp [packageP, projectP]) (by simp [packageP, releaseP])
-        (by simp [packageP, packageTmpP])
-      simp [relListed, isDir, e1, e2, e3]
-  intro key
-  unfold vis
-  split
-  · rename_i p' v'
-    by_cases hpv : p' = p ∧ v' = v
-    · obtain ⟨rfl, rfl⟩ := hpv; rw [rl]; simp [ha, hb]
-    · have e := hf (packageP p' v') (by simp [packageP, projectP]) (by simp [packageP, releaseP])
-        (by simp [packageP, packageTmpP])
-      rw [rl, e]
-  · rename_i p' v' i
-    have e := hf (packageP p' v' ++ [Seg.member i]) (by simp [packageP, projectP]) (by simp [packageP, releaseP])
-      (by simp [packageP, packageTmpP])
-    rw [rl, e]
-  · rename_i p' v' g'
-    have e1 := hf (generationP p' v' g') (by simp [generationP, projectP]) (by simp [generationP, releaseP])
-      (by simp [generationP, packageTmpP])
-    have e2 := hf (tagP p' v' g') (by simp [tagP, projectP]) (by simp [tagP, releaseP]) (by simp [tagP, packageTmpP])
-    simp [genListed, genValid, isDir, rl, e1, e2]
-  · rename_i p' v' g' s
-    have e1 := hf (generationP p' v' g') (by simp [generationP, projectP]) (by simp [generationP, releaseP])
-      (by simp [generationP, packageTmpP])
-    have e2 := hf (tagP p' v' g') (by simp [tagP, projectP]) (by simp [tagP, releaseP]) (by simp [tagP, packageTmpP])
-    have e3 := hf (stateP p' v' g' s) (by simp [stateP, projectP]) (by simp [stateP, releaseP])
-      (by simp [stateP, packageTmpP])
-    simp [genListed, genValid, isDir, tagOf, rl, e1, e2, e3]
-  · rfl
-
-/-- **C05_publish_crash_repaired**: with the package (file or directory tree) written under a temporary sibling
-name and renamed, a publish is crash consistent at every crash point, for every well-formed tree and package. -/
-theorem C05_publish_crash_repaired (kf : Bool) : C05_publish_crash_full ⟨true, kf⟩ := by
+/-- **C05_publish_crash**: with the package (file or directory tree) written under a temporary sibling name and
+renamed (the code that exists), a publish is crash consistent at every crash point, for every well-formed tree
+(including leftovers of earlier interrupted publishes) and package. -/
+theorem C05_publish_crash (kf : Bool) : PublishCrashConsistent ⟨true, kf⟩ := by
   intro fs c p v pkg k cut w hnl hc
-  have hb : get fs (packageP p v) = none := by
-    cases hr : get fs (packageP p v) with
-    | none => rfl
-    | some n =>
-      exfalso
-      have d2 := w.parent_dir (packageP p v) n hr (by simp [packageP])
-      have d1 := w.parent_dir (releaseP p v) .dir (by simpa [parent, packageP, releaseP] using d2) (by simp [releaseP])
-      simp [parent, packageP, releaseP] at d2 d1
-      simp [relListed, isDir, projectP, releaseP, packageP, d1, d2] at hnl
-      simp [packageP, hnl] at hr
-  -- the temporary writes
-  obtain ⟨tmpOps, hsplit, htmp⟩ : ∃ tmpOps : List Op,
-      pushOps ⟨true, kf⟩ fs p v pkg = (mkdirP fs (releaseP p v) ++ tmpOps) ++ [Op.rename (packageTmpP p v) (packageP p v)]
-      ∧ ∀ op ∈ tmpOps, ∀ key, touches op key → packageTmpP p v <+: key := by
-    cases pkg with
-    | file b =>
-      refine ⟨[.createEmpty (packageTmpP p v), .append (packageTmpP p v) b], by simp [pushOps, packageWriteOps], ?_⟩
-      intro op hop key hk
-      simp only [List.mem_cons, List.not_mem_nil, or_false] at hop
-      rcases hop with rfl | rfl <;> (simp only [touches] at hk; subst hk; exact List.prefix_refl _)
-    | dir ms =>
-      refine ⟨.mkdir (packageTmpP p v) :: ms.map (fun m => .copyFile (packageTmpP p v ++ [.member m.1]) m.2),
-        by simp [pushOps, packageWriteOps], ?_⟩
-      intro op hop key hk
-      simp only [List.mem_cons, List.mem_map] at hop
-      rcases hop with rfl | ⟨m, _, rfl⟩
-      · simp only [touches] at hk; subst hk; exact List.prefix_refl _
-      · simp only [touches] at hk; subst hk; exact List.prefix_append _ _
-  rw [hsplit, atomsAll_append] at hc ⊢
-  have hlast : atomsAll [Op.rename (packageTmpP p v) (packageP p v)] = [Op.rename (packageTmpP p v) (packageP p v)] := rfl
-  rw [hlast] at hc ⊢
-  rw [crashOps_snoc _ _ (by intro p b h; cases h)] at hc
-  split at hc
-  · left
-    have htouch : ∀ op ∈ crashOps (atomsAll (mkdirP fs (releaseP p v) ++ tmpOps)) k cut, ∀ key, touches op key →
-        (key = projectP p ∧ get fs key = none) ∨ (key = releaseP p v ∧ get fs key = none)
-          ∨ packageTmpP p v <+: key := by
-      intro op hop key hk
-      obtain ⟨a, ha, h1⟩ := crashOps_touches _ k cut op hop
-      obtain ⟨o, ho, h2⟩ := atomsAll_touches _ a ha
-      exact pushPrefix_touches fs p v tmpOps htmp o ho key (h2 key (h1 key hk))
-    apply vis_frame_rel c fs p v w
-    · intro key k1 k2 k3
-      apply run_frame _ _ _ _ hc
-      intro op hop htk
-      rcases htouch op hop key htk with h | h | h
-      · exact k1 h.1
-      · exact k2 h.1
-      · exact k3 h
-    · intro hne
-      apply run_frame _ _ _ _ hc
-      intro op hop htk
-      rcases htouch op hop _ htk with h | h | h
-      · exact hne h.2
-      · simp [projectP, releaseP] at h
-      · simp [projectP, packageTmpP] at h
-    · exact hb
-  · right; exact hc
+  rcases push_crash_raw kf fs c p v pkg k cut hc with hq | hfull
+  · exact Or.inl (hq.viewEq w (package_absent fs p v w hnl))
+  · exact Or.inr hfull
 
-/-- **C05_publish_crash_counterexample_file**: in the code that exists a process death right after the package file
-is opened leaves release 0/1 listed with an empty package. -/
-theorem C05_publish_crash_counterexample_file : ¬ C05_publish_crash_full Impl.existing := by
+/-- **C05_publish_crash_original_counterexample_file**: in the code before the fix a process death right after the
+package file is opened leaves release 0/1 listed with an empty package.  (Finding C05-F2.) -/
+theorem C05_publish_crash_original_counterexample_file : ¬ PublishCrashConsistent Impl.original := by
   intro h
-  have := h Fs.empty (runSome Fs.empty (crashOps (atomsAll (pushOps Impl.existing Fs.empty 0 1 (.file [7, 7]))) 3 none)).1
+  have := h Fs.empty (runSome Fs.empty (crashOps (atomsAll (pushOps Impl.original Fs.empty 0 1 (.file [7, 7]))) 3 none)).1
     0 1 (.file [7, 7]) 3 none (by decide) (by decide) (by decide)
   rcases this with h1 | h1
   · have := h1 (packageP 0 1); revert this; decide
   · revert h1; decide
 
-/-- **C05_publish_crash_counterexample_tree**: the same for a directory package: after `mkdir package.4ml` and one
-copied member the release is listed with an incomplete tree. -/
-theorem C05_publish_crash_counterexample_tree :
-    let ops := atomsAll (pushOps Impl.existing Fs.empty 0 1 (.dir [(1, [4]), (0, [5, 6])]))
+/-- **C05_publish_crash_original_counterexample_tree**: the same for a directory package: after `mkdir package.4ml`
+and one copied member the release is listed with an incomplete tree.  (Finding C05-F3.) -/
+theorem C05_publish_crash_original_counterexample_tree :
+    let ops := atomsAll (pushOps Impl.original Fs.empty 0 1 (.dir [(1, [4]), (0, [5, 6])]))
     let c := (runSome Fs.empty (crashOps ops 5 none)).1
     let full := (runSome Fs.empty ops).1
     relListed c 0 1 = true ∧ vis c (packageP 0 1 ++ [.member 0]) = none
       ∧ vis full (packageP 0 1 ++ [.member 0]) = some (.file [5, 6]) := by decide
 
-/-! ### non-vacuity: two projects, two releases of the first, three trainings -/
+/-! ## Part 2 — whole histories of the code that exists (`Impl.repaired`)
+
+`evs` ranges over *all* lists of events: publishes and trainings with arbitrary arguments (valid or not), each either
+run to its end or killed at an arbitrary micro-operation / inside an arbitrary write, after which the history goes on. -/
+
+/-- **C05_history_crash_consistent**: after *any* history, for *any* next step and *any* crash point of it (after `k`
+completed micro-operations of the step's registry calls, optionally inside the next write): a fresh reader sees
+exactly the previous content, or the step had completed successfully and the reader sees its complete result. -/
+theorem C05_history_crash_consistent (evs : List Ev) (s : Step) (k : Nat) (cut : Option Nat) :
+    let fs := play Impl.repaired Fs.empty evs
+    ViewEq (crashIn Impl.repaired fs s k cut) fs
+      ∨ ((exec Impl.repaired fs s).err = none ∧ crashIn Impl.repaired fs s k cut = (exec Impl.repaired fs s).fs) :=
+  (step_left _ (history_good evs) s _ (Or.inr ⟨k, cut, rfl⟩)).2
+
+/-- **C05_history_never_corrupt**: after any history — in particular right after any process death — every generation
+a fresh reader lists has a tag that decodes, and every state the tag names is there to be read: never a listed
+generation whose metadata or states are missing or unreadable. -/
+theorem C05_history_never_corrupt (evs : List Ev) (p v g : Nat)
+    (h : genListed (play Impl.repaired Fs.empty evs) p v g = true) :
+    ∃ t, tagOf (play Impl.repaired Fs.empty evs) p v g = some t
+      ∧ ∀ s ∈ t.sids, ∃ b, vis (play Impl.repaired Fs.empty evs) (stateP p v g s) = some (.file b) := by
+  have hv : genValid (play Impl.repaired Fs.empty evs) p v g = true := by
+    simp only [genListed, Bool.and_eq_true] at h; exact h.2
+  obtain ⟨t, ht, hs⟩ := (history_good evs).healthy p v g hv
+  refine ⟨t, ht, fun s hsin => ?_⟩
+  obtain ⟨b, hb⟩ := hs s hsin
+  have hc : t.sids.contains s = true := by simp only [List.contains_iff_mem]; exact hsin
+  exact ⟨b, by simp only [vis, stateP, h, ht, hc, Bool.and_self, if_true]; exact hb⟩
+
+/-- **C05_history_release_has_package**: every listed release has its package (listing = package present). -/
+theorem C05_history_release_has_package (evs : List Ev) (p v : Nat)
+    (h : relListed (play Impl.repaired Fs.empty evs) p v = true) :
+    ∃ n, vis (play Impl.repaired Fs.empty evs) (packageP p v) = some n := by
+  have := h
+  simp only [relListed, Bool.and_eq_true, Option.isSome_iff_exists] at this
+  obtain ⟨n, hn⟩ := this.2
+  exact ⟨n, by simp only [vis, packageP, h, if_true]; exact hn⟩
+
+/-- **C05_history_gap_free**: after any history the generations a reader lists for a release are exactly `1 .. n`. -/
+theorem C05_history_gap_free (evs : List Ev) (p v g : Nat)
+    (h : g ∈ generationsOf (play Impl.repaired Fs.empty evs) p v) :
+    1 ≤ g ∧ ∀ g', 1 ≤ g' → g' ≤ g → g' ∈ generationsOf (play Impl.repaired Fs.empty evs) p v := by
+  rw [mem_generationsOf] at h
+  refine ⟨?_, fun g' h1 h2 => ?_⟩
+  · simp only [genValid, Bool.and_eq_true, decide_eq_true_eq] at h; exact h.1.1
+  · rw [mem_generationsOf]; exact (history_good evs).gapfree p v g h g' h1 h2
+
+/-- **C05_history_failed_step_invisible**: a step that raises (refused by a guard, or a failing system call half-way)
+changes nothing a reader can see. -/
+theorem C05_history_failed_step_invisible (evs : List Ev) (s : Step)
+    (h : (exec Impl.repaired (play Impl.repaired Fs.empty evs) s).err ≠ none) :
+    ViewEq (exec Impl.repaired (play Impl.repaired Fs.empty evs) s).fs (play Impl.repaired Fs.empty evs) := by
+  rcases (step_left _ (history_good evs) s _ (Or.inl rfl)).2 with hv | ⟨he, _⟩
+  · exact hv
+  · exact absurd he h
+
+/-- **C05_history_train**: after any history, a successful training of release `p/v` (i) requires the release to be
+listed, (ii) adds generation `nextGen` — 1 for an empty listing, else above every listed number with the number below
+listed, i.e. (with `C05_history_gap_free`) one above the highest — listed, with a
+tag holding the run's ordinal and exactly the run's state ids in the run's (actor) order, (iii) each named state holds
+that run's bytes, and (iv) every other path — every older generation, tag, state, every package of every project —
+looks to a fresh reader byte-for-byte as before (so exactly one generation was added). -/
+theorem C05_history_train (evs : List Ev) (p v ord : Nat) (sts : List (Nat × Bytes))
+    (h : (exec Impl.repaired (play Impl.repaired Fs.empty evs) (.train p v ord sts)).err = none) :
+    let fs := play Impl.repaired Fs.empty evs
+    let fs' := (exec Impl.repaired fs (.train p v ord sts)).fs
+    relListed fs p v = true
+    ∧ ((generationsOf fs p v = [] → nextGen fs p v = 1)
+        ∧ (∀ g ∈ generationsOf fs p v, g < nextGen fs p v)
+        ∧ (generationsOf fs p v ≠ [] → nextGen fs p v - 1 ∈ generationsOf fs p v))
+    ∧ genListed fs' p v (nextGen fs p v) = true
+    ∧ tagOf fs' p v (nextGen fs p v) = some ⟨ord, sts.map (·.1)⟩
+    ∧ (sts.map (·.1)).Nodup
+    ∧ (∀ sb ∈ sts, vis fs' (stateP p v (nextGen fs p v) sb.1) = some (.file sb.2))
+    ∧ (∀ key, ¬ (generationP p v (nextGen fs p v) <+: key) → vis fs' key = vis fs key) := by
+  obtain ⟨h1, h2⟩ := train_ok _ (history_good evs) p v ord sts h
+  exact ⟨h1, nextGen_spec _ p v, h2⟩
+
+/-- **C05_history_publish**: after any history, a successful publish of package `(name, v)` through project key `dp`
+(i) has `dp = name` and `v` greater than every listed release of `name`, (ii) lists the new release with exactly
+that package at its place, and (iii) every path outside the new release directory looks byte-for-byte as before. -/
+theorem C05_history_publish (evs : List Ev) (dp name v : Nat) (pkg : Pkg)
+    (h : (exec Impl.repaired (play Impl.repaired Fs.empty evs) (.publish dp name v pkg)).err = none) :
+    let fs := play Impl.repaired Fs.empty evs
+    let fs' := (exec Impl.repaired fs (.publish dp name v pkg)).fs
+    dp = name ∧ (∀ w ∈ releasesOf fs name, w < v)
+    ∧ relListed fs' name v = true
+    ∧ pkg.placedAs (vis fs' (packageP name v))
+    ∧ (∀ key, ¬ (releaseP name v <+: key) → vis fs' key = vis fs key) :=
+  publish_ok _ (history_good evs) dp name v pkg h
+
+/-- **C05_history_append_only**: whatever a fresh reader can see after a history (a package, a package member, a
+tag, a state) it sees byte-identical after *any* continuation of that history — completed steps, refused steps,
+process deaths at any point.  (This is also why the process-wide `lru_cache`s `TAGS` / `STATES` / `ARTIFACTS` of a
+long-lived reader never go stale: a cached item equals what a fresh reader would read.) -/
+theorem C05_history_append_only (evs evs' : List Ev) (key : Path) (n : Node)
+    (h : vis (play Impl.repaired Fs.empty evs) key = some n) :
+    vis (play Impl.repaired Fs.empty (evs ++ evs')) key = some n := by
+  rw [play_append]
+  have gd := history_good evs
+  generalize play Impl.repaired Fs.empty evs = fs at h gd
+  induction evs' generalizing fs with
+  | nil => exact h
+  | cons e r ih =>
+    simp only [play]
+    obtain ⟨s, hs⟩ := apply_leftBy fs e
+    exact ih _ (apply_append_only fs gd e key n h) (step_left fs gd s _ hs).1
+
+/-! ### non-vacuity: two projects, two releases of the first, three trainings, two process deaths with recovery -/
 
 def demoHistory : List Step :=
   [.publish 0 0 2 (.file [1, 2, 3]), .publish 1 1 1 (.dir [(0, [9]), (1, [8, 8])]),
    .train 0 2 1 [(0, [1, 2, 3])], .publish 0 0 3 (.file [4]), .train 0 3 2 [(1, [4]), (2, [5, 6])],
    .train 0 2 3 [(3, [7])]]
 
+/-- the same with a training killed after the first state was moved, a directory publish killed while copying, and
+both retried by a new process -/
+def demoEvents : List Ev :=
+  [.step (.publish 0 0 2 (.file [1, 2, 3])), .crash (.publish 1 1 1 (.dir [(0, [9]), (1, [8, 8])])) 6 (some 1),
+   .step (.publish 1 1 1 (.dir [(0, [9]), (1, [8, 8])])), .step (.train 0 2 1 [(0, [1, 2, 3])]),
+   .crash (.train 0 2 2 [(1, [4]), (2, [5, 6])]) 6 none, .step (.train 0 2 3 [(3, [7]), (4, [8])]),
+   .step (.publish 0 0 1 (.file [4])), .step (.publish 0 0 3 (.file [4]))]
+
 /-- every step of the demo history succeeds under both variants, generations are numbered 1, 2 / 1 and hold the
 runs' states in order; the tree is well formed and satisfies the hypotheses of the commit theorems for the next
 generation -/
 example : ((execAll Impl.repaired Fs.empty demoHistory).2.all (fun o => o.err.isNone)) = true := by decide
-example : ((execAll Impl.existing Fs.empty demoHistory).2.all (fun o => o.err.isNone)) = true := by decide
+example : ((execAll Impl.original Fs.empty demoHistory).2.all (fun o => o.err.isNone)) = true := by decide
 example : let fs := (execAll Impl.repaired Fs.empty demoHistory).1
     generationsOf fs 0 2 = [2, 1] ∧ generationsOf fs 0 3 = [1] ∧ releasesOf fs 0 = [3, 2] ∧ releasesOf fs 1 = [1]
     ∧ tagOf fs 0 3 1 = some ⟨2, [1, 2]⟩ ∧ vis fs (stateP 0 3 1 2) = some (.file [5, 6]) ∧ nextGen fs 0 2 = 3
     ∧ WF fs ∧ get fs (projectP 0) ≠ none ∧ get fs (releaseP 0 2) ≠ none ∧ get fs (tagP 0 2 3) = none := by decide
-example : (execAll Impl.repaired Fs.empty demoHistory).1 = (execAll Impl.existing Fs.empty demoHistory).1 → True :=
-  fun _ => trivial
-example : (exec Impl.existing (execAll Impl.existing Fs.empty demoHistory).1 (.publish 0 0 2 (.file [1]))).err
+example : (exec Impl.original (execAll Impl.original Fs.empty demoHistory).1 (.publish 0 0 2 (.file [1]))).err
     = some .invalid := by decide
 example : (exec Impl.repaired Fs.empty (.publish 2 0 1 (.file [1]))).err = some .mismatch := by decide
+/-- the crash-recovery history: the killed publish left a temporary tree that the retry removes (`rmtree`), the killed
+training left generation directory 2 with one moved state and no tag, the retry reuses number 2; the refused publish
+(version 1 < 2) changes nothing -/
+example : let fs := play Impl.repaired Fs.empty demoEvents
+    generationsOf fs 0 2 = [2, 1] ∧ releasesOf fs 0 = [3, 2] ∧ releasesOf fs 1 = [1]
+    ∧ tagOf fs 0 2 2 = some ⟨3, [3, 4]⟩ ∧ vis fs (stateP 0 2 2 4) = some (.file [8])
+    ∧ vis fs (stateP 0 2 2 1) = none ∧ get fs (stateP 0 2 2 1) = some (.file [4])
+    ∧ vis fs (packageP 1 1 ++ [.member 1]) = some (.file [8, 8]) := by decide
+example : let fs := play Impl.repaired Fs.empty (demoEvents.take 2)
+    get fs (packageTmpP 1 1) = some .dir ∧ get fs (packageTmpP 1 1 ++ [.member 1]) = some (.file [8])
+    ∧ releasesOf fs 1 = [] := by decide
+example : ((exec Impl.repaired (play Impl.repaired Fs.empty (demoEvents.take 2))
+    (.publish 1 1 1 (.dir [(0, [9]), (1, [8, 8])]))).calls.head?.bind List.head?)
+    = some (.rmtree (packageTmpP 1 1)) := by decide
 
 end ForML.Registry
